@@ -11,7 +11,7 @@ PROPERTY = "C11"
 LEVEL = "exploration"
 
 SIGMA = [0x00, 0x01, 0x02, 0x03, 0x04, 0x05, 0x06, 0x30, 0x7f, 0x80, 0x81,
-         0x82, 0xa0, 0xa1, 0xff]
+         0x82, 0x83, 0xa0, 0xa1, 0xff]
 
 
 def ref_read_number(buf):
@@ -238,6 +238,64 @@ def shard_encode(arg):
     return sh
 
 
+def long_inputs():
+    """encodings with long-form lengths (bodies of 127..65536 bytes), each in
+    sibling variants that differ only near the end, plus their non-minimal /
+    truncated forms.  Returned as ordered sequences: siblings follow each
+    other (and the first is repeated) inside one process."""
+    seqs = []
+    for ln in (126, 127, 128, 129, 255, 256, 257, 300, 65535, 65536):
+        body = bytes((7 * i + 1) & 0x7f for i in range(ln))
+        sib = body[:-1] + bytes([(body[-1] + 1) & 0x7f])
+        for tag in (0x04, 0x30, 0xa0, 0x02, 0x06, 0x03):
+            variants = []
+            for b in (body, sib, body):
+                if tag == 0x02:
+                    b = b"\x01" + b[1:]
+                if tag == 0x03:
+                    b = b"\x00" + b[1:]
+                if tag == 0x06:
+                    b = b"\x2a" + b[1:]
+                good = rd.tlv(tag, b)
+                variants.append(good)
+                variants.append(good + b"\x05\x00")
+                variants.append(good[:-1])
+                # non-minimal length: one more length octet than needed
+                lb = rd.enc_len(len(b))
+                if lb[0] & 0x80:
+                    k = lb[0] & 0x7f
+                    variants.append(bytes([tag, 0x80 | (k + 1), 0]) + lb[1:] + b)
+                else:
+                    variants.append(bytes([tag, 0x81]) + lb + b)
+            if tag == 0x02:
+                z = b"\x00" + body[1:]          # superfluous leading zero
+                variants.append(rd.tlv(tag, z))
+                variants.append(rd.tlv(tag, b"\x00\x85" + body[2:]))
+            seqs.append(variants)
+    return seqs
+
+
+def shard_decode_long(arg):
+    from ecdsa import der
+    sh = Shard()
+    table = decoders(der)
+    for seq in arg:
+        for data in seq:
+            for name in table:
+                sh.n += 1
+                sh.nt += 1
+                bad = decode_case(der, name, data)
+                if bad is None:
+                    continue
+                sh.hist["fail:" + bad[0]] += 1
+                sh.violation("decode", bad[0], dict(decoder=name, data=data),
+                             bad[1], bad[2])
+    sh.sample(dict(space="long-form lengths", bodies="126..65536 bytes",
+                   order="siblings differing in the last byte follow each "
+                   "other"), cap=1)
+    return sh
+
+
 def replay(check, case):
     from ecdsa import der
     if check == "decode":
@@ -300,6 +358,8 @@ def main(ctx):
     for ch in common.chunks(pre, 8 * ctx.jobs):
         jobs.append((shard_decode, "sigma-strings",
                      (ch, SIGMA, maxlen, "Sigma^<=%d" % maxlen)))
+    for ch in common.chunks(long_inputs(), ctx.jobs):
+        jobs.append((shard_decode_long, "long-form-lengths", ch))
     # (c) encoders
     ints = list(range(0, ctx.pick(1 << 15, 1 << 17))) + \
         [(1 << k) + d for k in range(15, 1101, ctx.pick(7, 1)) for d in (-1, 0, 1)]
